@@ -647,8 +647,8 @@ func (h *harness) cuts(cf cfg) {
 }
 
 func run(c *hl.Ctx) {
-	c.Rule("E2: depth-first enumeration of every frame sequence <= D over the abstract alphabet opcode {0,1,2,3,8,9,10,11} x FIN x RSV {0,1,2,4} x mask {right,wrong} x length {0,1,125,126,65536 honest; 2^63-1, 2^63, 2^64-1 claimed} and 13 close payloads; a prefix is extended only while the reference RFC 6455 receiver is still running; every node is replayed on a fresh real Conn (4 configurations: role x compression negotiated). Judged: delivered messages equal the reference's up to the first violation, the read fails and stays failed, a 1002 Close is sent for the listed violations, top-bit lengths are never accepted, pongs echo ping payloads in order, a valid Close is echoed. Limit family: L in {1,125,126,1000} x message sizes around L x every fragmentation into <= 3 frames over the boundary cut points, and claimed lengths overflowing the running total. Cut family: every cut offset of every valid sequence <= 3 frames. state = abstract receiver state; transition = one frame."+closeRule+limitCtlRule)
-	c.Assume("non-minimal length encodings, a 1-byte Close payload and RSV1 on continuation/control frames under negotiated compression are outside the judged set", "text payloads are not checked for UTF-8 (the statement does not list it)", "the 1002 Close is not demanded for a top-bit length, only rejection",
+	c.Rule("E2: depth-first enumeration of every frame sequence <= D over the abstract alphabet opcode {0,1,2,3,8,9,10,11} x FIN x RSV {0,1,2,4} x mask {right,wrong} x length {0,1,125,126,65536 honest; 2^63-1, 2^63, 2^64-1 claimed} and 13 close payloads; a prefix is extended only while the reference RFC 6455 receiver is still running; every node is replayed on a fresh real Conn (4 configurations: role x compression negotiated). Judged: delivered messages equal the reference's up to the first violation, the read fails and stays failed, a 1002 Close is sent for the listed violations, top-bit lengths are never accepted, pongs echo ping payloads in order, a valid Close is echoed. Limit family: L in {1,125,126,1000} x message sizes around L x every fragmentation into <= 3 frames over the boundary cut points, and claimed lengths overflowing the running total. Cut family: every cut offset of every valid sequence <= 3 frames. state = abstract receiver state; transition = one frame."+closeRule+limitCtlRule+lenFormRule)
+	c.Assume("non-minimal length encodings are judged in the length-form family only (the other families use the minimal form), where a DATA frame in a non-minimal form may be accepted or refused with a 1002 Close (RFC 6455 5.2 binds the sender; the statement does not list it) while a Close/Ping/Pong in the 16-bit or 64-bit form is a violation whatever its decoded value (5.5: a control frame carries a 7-bit length <= 125)", "a 1-byte Close payload and RSV1 on continuation/control frames under negotiated compression are outside the judged set", "text payloads are not checked for UTF-8 (the statement does not list it)", "the 1002 Close is not demanded for a top-bit length, only rejection",
 		"close codes 1012-1014 (registered after RFC 6455) with a well-formed reason may be accepted or rejected, coherently (CloseError with the code and an echo, or failure with a 1002 Close); the status code of the echo of a valid Close is not judged",
 		"limit family with control frames: the Close (status 1009 in this library) written when the limit error is raised is not judged, nor is the content of the part of an oversized message handed over before the error; a ping arriving after the data frame that carries the running size beyond the limit may or may not be answered; the compressed variant uses a stored-block deflate stream built by hand from RFC 1951 3.2.4 / RFC 7692 7.2.1 (checked against the reference inflater), so that the wire size is exact and the inflated size never exceeds it",
 		"the reader's replies go through WriteControl with a 1 s wall-clock deadline: the package clock is frozen (rule R2) and its timers never fire (R2b), so a descheduled worker loses no reply; as a second line of defence a failing frame-sequence or Close case is re-run twice on fresh Conns and reported only when it fails each time (counter transient_outcomes, expected 0)")
@@ -664,7 +664,12 @@ func run(c *hl.Ctx) {
 	if c.Expired() {
 		return
 	}
-	// so is the limit family with interleaved control frames
+	// so is the length-form family
+	h.lenFormFamily()
+	if c.Expired() {
+		return
+	}
+	// and the limit family with interleaved control frames
 	h.limitCtlFamily()
 	if c.Expired() {
 		return
@@ -688,6 +693,7 @@ func run(c *hl.Ctx) {
 	if c.Shard == 0 {
 		c.Sample(map[string]interface{}{"part": "seq", "frames": "op2/len:1 op9F/len:125 op0F/len:0", "meaning": "fragment, ping in between, final empty continuation"})
 		c.Sample(map[string]interface{}{"part": "limit", "limit": 125, "message": 126, "fragmentation": []int{1, 124, 1}})
+		c.Sample(map[string]interface{}{"part": "lenform", "context": "in-fragment", "frames": "text[h] X=op9F/form16/len:5 cont[y]F text[t]F", "meaning": "a ping whose 5-byte length is written in the 16-bit form between two fragments: 1002, nothing delivered, no pong"})
 		c.Sample(map[string]interface{}{"part": "limit-ctl", "limit": 125, "message": 250, "sequence": "data[125] ping5 data[0] pong0 data[125] close", "meaning": "each run of fragments between control frames is within the limit, the message is not"})
 	}
 }
@@ -704,6 +710,8 @@ func replay(c *hl.Ctx, raw json.RawMessage) {
 		replayClose(c, raw)
 	case "limit-ctl":
 		replayLimitCtl(c, raw)
+	case "lenform":
+		replayLenForm(c, raw)
 	case "seq":
 		ref := &wsref.Receiver{IsServer: cs.Cfg.Server, Compression: cs.Cfg.Compression}
 		var frames []wsref.Frame
